@@ -28,6 +28,7 @@ TP=$(git diff --name-only | xargs -n1 dirname | sort -u | sed 's|^|./|' | grep -
 go test -mod=mod -vet=off -count=1 $TP 2>&1 | tail -4
 R2=${PIPESTATUS[0]}
 echo "== RESULT demo_without=$R0 demo_with=$R1 existing=$R2 (want 0, nonzero, 0)"
+cp /verif/known_findings.json /tmp/seed-ev-out/known_findings.json
 for c in $CHECKS; do
   echo "== static check $c on the patched tree"
   VERIF_REPO=$WT /verif/bin/check $c quick -verif /tmp/seed-ev-out 2>&1 | tail -6
